@@ -8,7 +8,7 @@ ASSUMPTIONS = ['Decimal arithmetic at 15 significant digits is exact for numeral
                'shapes: plain / grouped with the culture\'s thousands mark / decimal with its decimal mark / grouped+decimal, optional leading "-", <= 15 digits, <= 6 fraction digits; '
                'for cultures that accept both conventions also grouped+decimal with the marks exchanged ("1.234,56" in en-us)',
                'grouped numerals do not start with 0']
-OUTSIDE = ['which of several matches the regex engine prefers inside longer text (the language layer O3.1 only shows that a full match exists)', 'Chinese / Japanese (CJK parser)', 'recognition and stripping of the multiplier suffix itself (k, M ...; the kernel is checked with the multiplier as a parameter), fractions, powers',
+OUTSIDE = ['which of several matches the regex engine prefers inside longer text (the language layer O3.1 only shows that a full match exists)', 'Chinese / Japanese numerals written with CJK characters (digit literals of zh/ja go through the same kernel and are covered)', 'recognition and stripping of the multiplier suffix itself (k, M ...; the kernel is checked with the multiplier as a parameter), fractions, powers',
            'sign words ("minus 5") and text restoration in BaseNumberParser.parse', 'numerals of more than 15 digits']
 N = 'recognizers_number.number.parsers:'
 CULTURES = ['en-us', 'es-es', 'es-mx', 'fr-fr', 'pt-br', 'de-de', 'it-it', 'nl-nl']
@@ -47,13 +47,14 @@ def obligations(tier):
         return bool(s.get('neg') and s.get('grouped') and s['groups'] == [3, 3] and not s.get('frac'))
     sl = [{'culture': c, 'shape': s} for c in cult for s in shapes(tier) if not f13(s)]
     sl += [{'culture': c, 'shape': s} for c in cult if c in MULTI for s in swap_shapes(tier)]
+    sl += [{'culture': c, 'shape': s} for c in ('zh-cn', 'ja-jp') for s in (shapes(tier) if tier == 'thorough' else shapes(tier)[::2]) if not f13(s)]
     # the multiplier a k/M/G/T suffix contributes (collected by _digit_number_parse) reaches the kernel as `power`
     pw = [s for s in shapes(tier) if s['groups'] in ([1], [3], [1, 3]) and s.get('frac', 0) in (0, 1, 2)]
     sl += [{'culture': c, 'shape': s, 'power': p} for c in cult for s in pw for p in ((1000, 10 ** 6) if tier == 'quick' else (1000, 10 ** 6, 10 ** 9, 10 ** 12))]
     kf = [{'culture': c, 'shape': s} for c in ('en-us', 'fr-fr', 'de-de') for s in shapes(tier) if f13(s)]
     obs = [Ob('O3.2-digital-value', 'sx', 'harness.C03:h_digital_value', twin='harness.C03:t_digital_value', slices=sl, timeout=t,
               descr='_get_digital_value returns exactly the number written (grouping and decimal marks of the culture, optional sign) for every digit assignment',
-              bounds='all digit values of each shape (<= 15 digits); quick: 5 cultures, thorough: 8; suffix multiplier 1, 10^3, 10^6 (thorough 10^9, 10^12) on the short shapes', encodes=[N + 'BaseNumberParser._get_digital_value',
+              bounds='all digit values of each shape (<= 15 digits); quick: 5 cultures + zh, ja (every second shape), thorough: 8 + zh, ja; suffix multiplier 1, 10^3, 10^6 (thorough 10^9, 10^12) on the short shapes', encodes=[N + 'BaseNumberParser._get_digital_value',
                                                                                                                 N + 'BaseNumberParser.__skip_non_decimal_separator'],
               stubs=['Decimal / getcontext -> exact proxy (harness/symdec.py)', 'numeral text -> SymText/SymChar proxies']),
            Ob('O3.2-signed-single-group', 'sx', 'harness.C03:h_digital_value', slices=kf, timeout=t, finding='F13',
